@@ -162,3 +162,40 @@ Example render_displays_nonvacuous :
   let f := [C [104; 105; 10] (A 2 5 1 0 2 0 0 1); C [] (A 0 0 1 0 0 0 0 0); C [9; 65279; 120] (A 0 0 0 0 0 1 0 0)] in
   clean f = true /\ length (cells f) = 6%nat /\ display (render f) = Some (cells f, sgr_default, Ground).
 Proof. vm_compute. repeat split. Qed.
+
+(* ---- structure of the terminal string ------------------------------------------------- *)
+(* rendering is run by run: the string of a concatenation is the concatenation of the strings *)
+Theorem render_app f g : render (f ++ g) = render f ++ render g.
+Proof. unfold render. now rewrite flat_map_app. Qed.
+
+(* a run on which no attribute is switched on (absent or explicitly False; no colours) is its text,
+   with nothing around it: an unformatted FmtStr renders as its plain text *)
+Definition unstyled (a : atts) : bool :=
+  match a_fg a, a_bg a with
+  | None, None => negb (on (a_bold a) || on (a_dark a) || on (a_italic a) || on (a_underline a)
+                        || on (a_blink a) || on (a_invert a))
+  | _, _ => false
+  end.
+
+Lemma wrap_style_off k v s : on v = false -> wrap_style k v s = s.
+Proof. destruct v as [[|]|]; cbn; congruence. Qed.
+
+Lemma render_chunk_unstyled c : unstyled (c_a c) = true -> render_chunk c = c_s c.
+Proof.
+  unfold unstyled, render_chunk. destruct (c_a c) as [fg bg b d i u bl inv]; cbn [a_fg a_bg a_bold a_dark a_italic a_underline a_blink a_invert].
+  destruct fg, bg; try discriminate. intro H. apply negb_true_iff in H.
+  repeat (apply orb_false_iff in H; destruct H as [H ?]).
+  cbn [wrap_fg wrap_bg]. now rewrite !wrap_style_off.
+Qed.
+
+Theorem render_unstyled f : forallb (fun c => unstyled (c_a c)) f = true -> render f = text f.
+Proof.
+  induction f as [|c f IH]; intro H; [reflexivity|].
+  cbn [forallb] in H. apply andb_true_iff in H as [Hc Hf].
+  cbn [render text flat_map]. fold (render f). fold (text f). now rewrite (render_chunk_unstyled c Hc), (IH Hf).
+Qed.
+
+(* two values with the same cells display the same, however the runs are cut *)
+Corollary same_cells_same_display f g : clean f = true -> clean g = true -> cells f = cells g ->
+  display (render f) = display (render g).
+Proof. intros Hf Hg E. now rewrite (render_displays f Hf), (render_displays g Hg), E. Qed.
